@@ -5,6 +5,11 @@ attribute list, marginalisation is a 0/1 matrix assembled by a counting loop, qu
 rebuilt deterministically from a JSON-serialisable spec.  The drivers hand the *spelled* query
 (dense / sparse / LinearOperator / None) to the code under test and keep the dense matrix for the oracle.
 """
+import os
+# 16 fork workers x multi-threaded BLAS oversubscribes the machine (measured 4x slowdown): pin BLAS/OpenMP to one
+# thread per process.  Effective because this module is imported by the property modules before numpy is.
+for _v in ('OMP_NUM_THREADS', 'OPENBLAS_NUM_THREADS', 'MKL_NUM_THREADS'):
+    os.environ.setdefault(_v, '1')
 import itertools
 import numpy as np
 
@@ -66,6 +71,8 @@ def make_Q(kind, n, qseed, rows=None):
         return Q
     if kind == 'deficient':                   # rank deficient, the ones vector is NOT in the row space:
         # rows are orthogonal to a vector w that has positive inner product with 1
+        if n == 1:
+            return np.zeros((1, 1))
         m = rows or max(1, n - 1)
         B = r.randn(m, n)
         w = np.ones(n) + 0.3 * r.rand(n)
